@@ -9,7 +9,7 @@ WT=/tmp/wt-$ID; HX=/tmp/hx-$ID; NAME=$(basename $M)
 LOG=/tmp/seed/log-$ID-$NAME.txt
 exec >$LOG 2>&1
 set -x
-cd $WT && git checkout -q -- . && git apply $M/patch.diff || { echo "APPLY FAILED"; exit 3; }
+cd $WT && git checkout -q -- . && git checkout -q --detach $(git -C /repo rev-parse HEAD) && git apply $M/patch.diff || { echo "APPLY FAILED"; exit 3; }
 export ERG_PATH=$WT/crates/erg_compiler CARGO_NET_OFFLINE=true
 if [ -z "$SKIP_CONFIRM" ]; then
   cargo build --offline 2>&1 | tail -2
